@@ -27,7 +27,7 @@ D = {
  "C03": "div_spec / checked_div_spec / div_dec_int_spec / div_int_dec_spec / normalize_spec: the exact quotient rounded once to 18 digits (kernel theorem of C04 with n=18), trailing zeros stripped exactly, divisor-one and zero short cuts, zero divisor -> panic/None, overflow only when the rounded quotient does not fit; the integer divisor ranges over every value of its type including i128::MIN (repaired defect D13), an integer dividend i128::MIN is covered by the correspondence run only.",
  "C04": "checkedDivRounded_spec (all four scaling branches; the repaired divisor-scaled branch via specRound_two_step), div_rounded_spec + guarded integer shapes, mul_rounded_spec, four quantize theorems; the unguarded int/int shape is proved for n<=18 only (div_rounded_int_int_partial) with the Lean witness of the open known finding D8.",
  "C05": "kernel_spec (i128_div_rounded = Spec.specRoundQ for all 8 modes, all in-range n, d != 0), spec_table (the spec agrees with Python-decimal outcomes on the complete class grid), round_spec / checked_round_spec for every Decimal of the domain and every n : i8 including the far-negative shortcut.",
- "C06": "from_str_spec: for EVERY byte string shorter than 2^56 bytes Decimal::from_str agrees with the reference grammar parser (unbounded integers), value and digit count exact, Err otherwise, Empty only for the empty string, never a panic; SWAR lemmas proved without bv_decide; saturating accumulation; exponent saturation never changes the verdict.",
+ "C06": "from_str_spec: for EVERY byte string shorter than 2^56 bytes Decimal::from_str agrees with the reference grammar parser (unbounded integers), value and digit count exact, Err otherwise, Empty only for the empty string, never a panic; SWAR lemmas proved without bv_decide; saturating accumulation; exponent saturation never changes the verdict. The clause 'never reads outside the string' is carried by the translated length guards in front of the two unsafe reads and, as search for a failing input, by running the parser entry points under Miri (cargo +nightly miri, debug assertions off, every literal in an allocation of exactly its length): thorough tier always, quick tier after a broken obligation or mismatch.",
  "C07": "string_from_spec / to_string_spec / debug_spec (one canonical text Spec.render), render_parses_back, roundtrip (from_str(to_string(d)) = Ok(d) with identical coefficient and digit count, via C06); serde_glue + serde_roundtrip: the serde-as-str attributes of struct Decimal are re-extracted (derive with into/try_from String, no hand-written impl) and the translated try_from(String::from(d)) is Ok(d); serde's own code only exercised (feature build in the correspondence run).",
  "C08": "partial_cmp_spec / cmp_spec / eq_spec and the integer shapes: comparison of the exact values also when scale alignment overflows; value_order_refl/antisymm/trans/eq_iff; rkyv_roundtrip / rkyv_eq_spec / rkyv_cmp_spec / rkyv_mixed_spec / rkyv_ord_never_panics / rkyv_layout: the translated ArchivedDecimal impls (==, partial_cmp, Ord, mixed forms, Archive::resolve and Deserialize of the packed layout) make archive∘deserialise the identity and compare by exact value; rkyv's own code (derive, check_bytes) only exercised (feature builds rkyv and rkyv,packed).",
  "C09": "gcd_special_spec (Stein loop terminates within its fuel and returns gcd(|n|,10^e)), as_integer_ratio_spec, ratio_is_reduced (d>0, coprime, same value), ratio_of_equal_values, hash_of_equal_values (equal values feed the same words to any Hasher), kernel_hash_spec (the same for the translated impl Hash; the exact Hasher call sequence is also an observable of the correspondence run).",
